@@ -363,13 +363,110 @@ type ccase struct {
 	Detail string `json:"detail"`
 }
 
+// forgetful: a holder that loses its only reference to the File (or to the unlock function) without
+// closing. The lock is held until Close or unlock is called - not until the collector happens to run: as
+// long as this process lives, nobody else gets the lock. (On the tree the leaked File's finalizer ends
+// the process, which is one way of keeping that promise.)
+//
+//go:noinline
+func forgetfulAcquire(kind, path string) error {
+	switch kind {
+	case "Edit":
+		_, err := lockedfile.Edit(path)
+		return err
+	case "Create":
+		_, err := lockedfile.Create(path)
+		return err
+	default:
+		_, err := lockedfile.MutexAt(path).Lock()
+		return err
+	}
+}
+
+func forgetful() {
+	path, kind, marker := os.Getenv("C06_PATH"), os.Getenv("C06_KIND"), os.Getenv("C06_MARKER")
+	if err := forgetfulAcquire(kind, path); err != nil {
+		os.WriteFile(marker, []byte("error "+err.Error()), 0o666)
+		return
+	}
+	for i := 0; i < 8; i++ {
+		runtime.GC()
+		time.Sleep(10 * time.Millisecond)
+	}
+	os.WriteFile(marker+".tmp", []byte("alive"), 0o666)
+	os.Rename(marker+".tmp", marker)
+	time.Sleep(20 * time.Second) // the parent ends this process
+}
+
+func forgetfulCases(r *vlib.Run, base string) {
+	for i, kind := range []string{"Edit", "Create", "Mutex.Lock", "Edit", "Mutex.Lock"} {
+		dir := filepath.Join(base, fmt.Sprintf("forget%d", i))
+		os.MkdirAll(dir, 0o777)
+		path, marker := filepath.Join(dir, "lock"), filepath.Join(dir, "marker")
+		os.WriteFile(path, []byte("x"), 0o666)
+		cmd := exec.Command(os.Args[0])
+		cmd.Env = append(os.Environ(), "C06_FORGETFUL=1", "C06_PATH="+path, "C06_KIND="+kind, "C06_MARKER="+marker, "GOMAXPROCS=2")
+		if err := cmd.Start(); err != nil {
+			r.Inconclusive("cannot start the forgetful holder: " + err.Error())
+			return
+		}
+		done := make(chan struct{})
+		go func() { cmd.Wait(); close(done) }()
+		alive := false
+	wait:
+		for t := 0; t < 1000; t++ {
+			select {
+			case <-done:
+				break wait
+			case <-time.After(10 * time.Millisecond):
+			}
+			if b, err := os.ReadFile(marker); err == nil {
+				if strings.HasPrefix(string(b), "error") {
+					r.Inconclusive("forgetful holder: " + string(b))
+				}
+				alive = string(b) == "alive"
+				break
+			}
+		}
+		r.Count("forgetful_holder_cases", 1)
+		if alive {
+			// the holder is alive, several collections after it dropped its reference: the lock is still its
+			if pf, err := os.OpenFile(path, os.O_RDWR, 0); err == nil {
+				ferr := syscall.Flock(int(pf.Fd()), syscall.LOCK_EX|syscall.LOCK_NB)
+				stillAlive := syscall.Kill(cmd.Process.Pid, 0) == nil
+				select {
+				case <-done:
+					stillAlive = false
+				default:
+				}
+				if ferr == nil && stillAlive {
+					r.Violation(fmt.Sprintf("lock-released-without-close kind=%s", kind),
+						fmt.Sprintf("process %d took the lock through %s, dropped its reference without calling Close / unlock and is still alive; another process was granted the lock", cmd.Process.Pid, kind),
+						ccase{"lock-released-without-close", -1, kind})
+				}
+				pf.Close()
+			}
+			r.Count("forgetful_holders_still_alive_and_holding", 1)
+		} else {
+			r.Count("forgetful_holders_ended_by_the_finalizer", 1)
+		}
+		cmd.Process.Kill()
+		<-done
+		os.RemoveAll(dir)
+	}
+}
+
 func main() {
+	if os.Getenv("C06_FORGETFUL") == "1" {
+		forgetful()
+		return
+	}
 	if os.Getenv("C06_WORKER") == "1" {
 		worker()
 		return
 	}
 	vlib.Main("C06", "exploration", 10*time.Minute, func(r *vlib.Run) {
-		r.Rule("rounds of P processes x G goroutines released together, each doing N acquisitions on 2-3 lock paths (regular files; every other round also one private character device or FIFO, whose truncation by Create/Write fails and is tolerated) through a random entry point (OpenFile O_RDONLY/O_WRONLY/O_RDWR, Open, Create, Edit, Mutex.Lock, inside Transform's function, inside the reader handed to Write), dwelling 0-300us inside, with seeded delays at the lockedfile.open/close hooks; every second worker process closes its standard input first, so that lock files are opened on descriptor 0; one round in six runs its workers as uid 65534 on lock files they can read but not write (write-locking entry points must be refused, not weakened); every third round the workers run under strace, which makes every other flock call of every thread fail with EINTR (an interrupted lock request must be reissued, never taken for granted) or, in every other such round, every third one with ENOSYS (a refused lock request must surface as an error, never as an unlocked file); in the other rounds one operation in 16 is a release probe: an acquisition on a path private to the goroutine, ended in each way an entry point can end (Write / Write whose content reader fails / Transform / Transform whose function fails / Create, Edit, Open + Close, also while a duplicate of the descriptor is open elsewhere / Mutex.Lock + unlock), after whose return a non-blocking exclusive flock on a fresh descriptor must be granted. Evaluations = acquisitions; distinct non-trivial = acquisitions that found a conflicting holder inside when they were invoked (had to wait), plus rounds.")
+		r.Rule("rounds of P processes x G goroutines released together, each doing N acquisitions on 2-3 lock paths (regular files; every other round also one private character device or FIFO, whose truncation by Create/Write fails and is tolerated) through a random entry point (OpenFile O_RDONLY/O_WRONLY/O_RDWR, Open, Create, Edit, Mutex.Lock, inside Transform's function, inside the reader handed to Write), dwelling 0-300us inside, with seeded delays at the lockedfile.open/close hooks; every second worker process closes its standard input first, so that lock files are opened on descriptor 0; one round in six runs its workers as uid 65534 on lock files they can read but not write (write-locking entry points must be refused, not weakened); every third round the workers run under strace, which makes every other flock call of every thread fail with EINTR (an interrupted lock request must be reissued, never taken for granted) or, in every other such round, every third one with ENOSYS (a refused lock request must surface as an error, never as an unlocked file); in the other rounds one operation in 16 is a release probe: an acquisition on a path private to the goroutine, ended in each way an entry point can end (Write / Write whose content reader fails / Transform / Transform whose function fails / Create, Edit, Open + Close, also while a duplicate of the descriptor is open elsewhere / Mutex.Lock + unlock), after whose return a non-blocking exclusive flock on a fresh descriptor must be granted; five holders (Edit / Create / Mutex.Lock) that drop their reference without closing and run the collector: while such a process lives nobody else is granted the lock. Evaluations = acquisitions; distinct non-trivial = acquisitions that found a conflicting holder inside when they were invoked (had to wait), plus rounds.")
 		r.Assume("flock semantics of the host kernel; the occupancy word is updated only between an acquiring call's return and the releasing call's invocation")
 		base := vlib.Scratch()
 		rounds := r.Pick(6, 28)
@@ -551,6 +648,7 @@ func main() {
 		r.Set("acquisitions_that_found_a_conflicting_holder", tot.Contended)
 		r.Set("max_simultaneous_readers", tot.MaxReaders)
 		r.Set("hook_hits", tot.Hook)
+		forgetfulCases(r, base)
 		r.ReportRaces(racePrefix)
 		if tot.MaxReaders < 2 {
 			r.Inconclusive("never observed two readers inside at once (read locks may be shared - not exercised)")
